@@ -8,7 +8,7 @@ from .. import machine as M
 from ..core import parallel_map
 
 DRIVERS = ["drv_machine"]
-GENERATED = ["Handlers", "Markers"]
+GENERATED = ["Handlers", "Markers", "InputPath"]
 
 
 def prefix_run(ctx, args, lines, ks, pager=False, expect=None):
@@ -70,6 +70,104 @@ def prefix_run(ctx, args, lines, ks, pager=False, expect=None):
     fcntl.fcntl(fd, fcntl.F_SETFL, fcntl.fcntl(fd, fcntl.F_GETFL) & ~os.O_NONBLOCK)
     got += p.stdout.read()
     return snaps, got, p.returncode
+
+
+def chunk_run(ctx, args, chunks, expect, pager=False):
+    """Feed the real binary the given chunks (arbitrary byte strings: parts of lines, several lines); after every chunk wait
+    until it blocks in read(0) and take what has arrived. expect: [rows that must be visible after chunk j].
+    Returns ([bytes after chunk j], final bytes, rc)."""
+    env = dict(os.environ, HOME=os.path.join(os.path.dirname(ctx.delta), "..", "..", "home"), GIT_CONFIG_NOSYSTEM="1",
+               DELTA_VERIF_FORCE_GUESS="none")
+    for k in ("GIT_CONFIG_PARAMETERS", "DELTA_FEATURES", "DELTA_PAGER", "PAGER", "BAT_PAGER", "DELTA_VERIF_HOOK", "LESS"):
+        env.pop(k, None)
+    if pager:
+        args = [a for a in args if not a.startswith("--paging")] + ["--paging=always"]
+        env["DELTA_PAGER"] = "cat"
+    p = subprocess.Popen([ctx.delta] + args, stdin=subprocess.PIPE, stdout=subprocess.PIPE, stderr=subprocess.PIPE, env=env)
+    fd = p.stdout.fileno()
+    fcntl.fcntl(fd, fcntl.F_SETFL, fcntl.fcntl(fd, fcntl.F_GETFL) | os.O_NONBLOCK)
+    got = b""
+    snaps = []
+
+    def drain():
+        nonlocal got
+        while True:
+            try:
+                b = os.read(fd, 65536)
+            except BlockingIOError:
+                return
+            if not b:
+                return
+            got += b
+
+    def wait_blocked():
+        for _ in range(2000):
+            try:
+                st = open(f"/proc/{p.pid}/syscall").read()
+            except OSError:
+                return
+            if st.startswith("0 0x0 ") and open(f"/proc/{p.pid}/stat").read().split()[2] == "S":
+                return
+            time.sleep(0.0005)
+    try:
+        for j, c in enumerate(chunks):
+            p.stdin.write(c)
+            p.stdin.flush()
+            wait_blocked()
+            time.sleep(0.001)
+            drain()
+            for _ in range(300 if pager else 40):
+                if got.count(b"\n") >= expect[j]:
+                    break
+                time.sleep(0.002)
+                drain()
+            snaps.append(got)
+        p.stdin.close()
+        p.wait(timeout=20)
+    finally:
+        if p.poll() is None:
+            p.kill()
+    fcntl.fcntl(fd, fcntl.F_SETFL, fcntl.fcntl(fd, fcntl.F_GETFL) & ~os.O_NONBLOCK)
+    got += p.stdout.read()
+    return snaps, got, p.returncode
+
+
+CHUNKINGS = ["mid-line", "several-lines", "line-and-a-bit", "byte-trickle", "newline-first"]
+
+
+def make_chunks(rng, data, kind, limit=28):
+    """cut the input bytes into chunks; every class ends chunks at places a line-by-line feeder never does"""
+    n = len(data)
+    cuts = set()
+    nl = [i + 1 for i, b in enumerate(data) if b == 10]          # positions just after a newline
+    if kind == "mid-line":
+        cuts = {rng.randrange(1, n) for _ in range(limit)} if n > 1 else set()
+    elif kind == "several-lines":
+        i = 0
+        while i < len(nl) - 1:
+            i += rng.choice([2, 3, 5])
+            if i < len(nl):
+                cuts.add(nl[i - 1])
+    elif kind == "line-and-a-bit":
+        for q in rng.sample(nl, min(len(nl), limit)):
+            if q + 1 < n:
+                cuts.add(min(n - 1, q + rng.choice([1, 2, 5])))
+    elif kind == "byte-trickle":
+        start = rng.choice(nl[:-1]) if len(nl) > 1 else 0
+        for q in range(start, min(n, start + 12)):
+            cuts.add(q)
+        cuts |= set(rng.sample(nl, min(len(nl), limit - 12)))
+    elif kind == "newline-first":
+        for q in rng.sample(nl, min(len(nl), limit)):
+            if q - 1 > 0:
+                cuts.add(q - 1)                                      # the chunk ends just before the newline: the next begins with it
+    cuts = sorted(c for c in cuts if 0 < c < n)
+    if len(cuts) > limit:
+        cuts = sorted(rng.sample(cuts, limit))
+    out, prev = [], 0
+    for c in cuts + [n]:
+        out.append(data[prev:c]); prev = c
+    return [c for c in out if c]
 
 
 def run(ctx, rep):
@@ -149,6 +247,24 @@ def run(ctx, rep):
         if not impl.ok:
             continue
         B = cfg.d["bufSize"]
+        # both views: the machine model says nothing about what a row looks like in side-by-side mode, but its emission
+        # points and line buffers are those of the side-by-side run too (C11.view_does_not_change_emission_points)
+        model = res[i][1]
+        uni = res[i][0]
+        if model is not None and model.ok and uni.ok and not M.compare(cfg, uni, model) and len(model.obs) == len(impl.obs) \
+                and not any(o["blame"] == "1" or o["grep"] != "0" for o in impl.obs[:-1]):
+            dis, pw, pm = [], 0, 0
+            for k, (a, b) in enumerate(zip(impl.obs, model.obs)):
+                if a["state"] != b["state"]:
+                    dis.append(f"line {k}: state {a['state']} vs model {b['state']}"); break
+                if (a["minus"], a["plus"]) != (b["minus"], b["plus"]):
+                    dis.append(f"line {k}: held minus/plus {(a['minus'], a['plus'])} vs model {(b['minus'], b['plus'])}"); break
+                if (a["buffered"] > 0) != (b["buf"] > 0):
+                    dis.append(f"line {k}: output buffer non-empty {a['buffered'] > 0} vs model {b['buf'] > 0}"); break
+                if (a["written"] > pw) != (b["out"] > pm):
+                    dis.append(f"line {k}: something written at this line {a['written'] > pw} vs model {b['out'] > pm}"); break
+                pw, pm = a["written"], b["out"]
+            rep.corr_case("machine.run:side-by-side-emission-points", not dis, dict(case, disagreement=dis[:2]))
         prev = 0
         for k, o in enumerate(impl.obs[:-1]):
             if o["written"] < prev:
@@ -203,11 +319,123 @@ def run(ctx, rep):
                               f"after {k} input lines {have} output lines have arrived, {want} have been rendered and emitted", dict(case, k=k))
                 break
 
+    # the input side: arbitrary chunking (C11.line_consumed_as_soon_as_written). The producer writes pieces that end in the
+    # middle of lines, hold several lines, start with the newline of the previous line, ... and pauses after each; the pipe /
+    # reader-stack model (drv_machine `input.run`, program compiled from Generated/InputPath.lean) says how many lines the
+    # state machine has been handed at each pause; the machine model says how many rows are out after that many lines.
+    csample = []
+    for (cfg, lines), (impl, model) in zip(meta, res):
+        if 4 <= len(lines) <= 80 and impl.ok and model is not None and model.ok and not M.compare(cfg, impl, model) \
+                and len(csample) < ctx.n(15, 200):
+            kind = CHUNKINGS[len(csample) % len(CHUNKINGS)]
+            sbs = len(csample) % 3 == 2
+            data = "\n".join(lines).encode() + b"\n"
+            chunks = make_chunks(rng, data, kind)
+            csample.append((cfg, lines, chunks, kind, sbs, rng.randrange(0, 1000), len(csample) % 4 == 3))
+    mdl = ctx.model("drv_machine") if ctx.drivers_ok else None
+    mresp = mdl.ask(["input.run stdin " + " ".join("w" + M.hx(c) + " p" + str(seed) for c in chunks)
+                     for _, _, chunks, _, _, seed, _ in csample]) if (mdl and csample) else []
+    input_model = bool(mresp) and all(r.startswith("ok ") for r in mresp)
+    if mresp and not input_model:
+        rep.count("input.run:driver-does-not-know-the-op")
+
+    def cone(mt):
+        cfg, lines, chunks, kind, sbs, seed, pager = mt
+        rows_after = [0] + [o["out"] for o in res_model_obs[id(lines)]]
+        sent, exp = b"", []
+        for c in chunks:
+            sent += c
+            w = rows_after[min(sent.count(b"\n"), len(rows_after) - 1)]
+            exp.append(min(w, 1) if sbs else w)
+        args = cfg.args() + (["--side-by-side", "--width=100"] if sbs else [])
+        try:
+            return chunk_run(ctx, args, chunks, exp, pager=pager)
+        except Exception as e:  # noqa
+            return ("error", str(e), None)
+    res_model_obs = {}
+    for (cfg, lines), (impl, model) in zip(meta, res):
+        if model is not None and model.ok:
+            res_model_obs[id(lines)] = model.obs[:len(lines)]
+    for j, (mt, r) in enumerate(zip(csample, parallel_map(cone, csample, workers=4))):
+        cfg, lines, chunks, kind, sbs, seed, pager = mt
+        view = "side-by-side" if sbs else "unified"
+        case = dict(args=cfg.args() + (["--side-by-side", "--width=100"] if sbs else []), model_cfg=cfg.d, input="\n".join(lines),
+                    chunked=True, chunks=[c.hex() for c in chunks], chunking=kind, view=view, pager=pager, hint_seed=seed)
+        rep.count("chunked:" + kind + ":" + view + (":through-pager" if pager else ""))
+        if r[0] == "error":
+            rep.count("pipe-driver-error"); continue
+        snaps, final, rc = r
+        rep.case(key=("chunked", cfg.key(), tuple(lines), tuple(chunks), view), nontrivial=any(c[-1:] != b"\n" for c in chunks[:-1]),
+                 sample=dict(chunking=kind, n_chunks=len(chunks), view=view))
+        rep.count("chunked-pauses", len(snaps))
+        if rc != 0:
+            rep.violation("exit-status", f"exit status {rc}", case)
+        rows_after = [0] + [o["out"] for o in res_model_obs[id(lines)]]
+        handed = None
+        if input_model:
+            obs = [o.split(",") for o in mresp[j].split(" ")[1].split(";")]
+            handed = [int(o[0]) for o in obs]
+            if any(o[2] != "1" or o[4] != "0" or o[5] != "0" for o in obs):
+                rep.corr_case("input.run", False, dict(case, disagreement="the model's consumer is not at rest with empty buffers at a pause"))
+        sent, prev = b"", b""
+        for q, c in enumerate(chunks):
+            sent += c
+            k = sent.count(b"\n")                        # complete lines among the bytes written so far
+            snap = snaps[q] if q < len(snaps) else final
+            if not final.startswith(snap) or not snap.startswith(prev):
+                rep.violation("output-revised", f"after chunk {q} the bytes written are not a prefix of what follows", dict(case, q=q))
+                break
+            prev = snap
+            have = snap.count(b"\n")
+            if sbs:
+                # side-by-side rows are not the model's rows: the oracle is on *whether* the input so far has produced what the
+                # complete run produces for it: everything the unified model has emitted after k lines is non-empty iff ...
+                want_some = rows_after[min(k, len(rows_after) - 1)] > 0
+                if want_some and have == 0:
+                    rep.violation("pipe-lag:chunked:" + kind + ":side-by-side",
+                                  f"after chunk {q} ({len(sent)} bytes, {k} complete lines) nothing has arrived; the rows of these lines have been emitted", dict(case, q=q))
+                    break
+                continue
+            want = rows_after[min(k, len(rows_after) - 1)]
+            if have < want:
+                rep.violation("pipe-lag:chunked:" + kind + (":through-pager" if pager else ""),
+                              f"after chunk {q} ({len(sent)} bytes written, {k} complete lines) {have} output lines have arrived, "
+                              f"{want} have been rendered and emitted for these lines", dict(case, q=q))
+                break
+            if handed is not None and not pager:
+                hk = handed[q]
+                rep.corr_case("input.run", have == rows_after[min(hk, len(rows_after) - 1)],
+                              dict(case, q=q, disagreement=f"after chunk {q}: the reader model has handed on {hk} lines = "
+                                   f"{rows_after[min(hk, len(rows_after) - 1)]} rows out, {have} rows have arrived"))
+
 
 def replay(ctx, rep, obj):
     c = obj["case"]
     cfg = M.VCfg(**c["model_cfg"])
     lines = c["input"].split("\n")
+    if c.get("chunked"):
+        res = M.observe(ctx, [(cfg, [l.encode() for l in lines])])
+        impl, model = res[0]
+        chunks = [bytes.fromhex(x) for x in c["chunks"]]
+        rows_after = [0] + [o["out"] for o in model.obs[:len(lines)]]
+        sbs = c.get("view") == "side-by-side"
+        sent, exp = b"", []
+        for ch in chunks:
+            sent += ch
+            w = rows_after[min(sent.count(b"\n"), len(rows_after) - 1)]
+            exp.append(min(w, 1) if sbs else w)
+        snaps, final, rc = chunk_run(ctx, c["args"], chunks, exp, pager=bool(c.get("pager")))
+        rep.case(key=("chunked-replay", tuple(lines)), nontrivial=True)
+        sent = b""
+        for q, ch in enumerate(chunks):
+            sent += ch
+            k = sent.count(b"\n")
+            have, want = snaps[q].count(b"\n"), rows_after[min(k, len(rows_after) - 1)]
+            print(f"chunk {q}: {len(sent)} bytes written, {k} complete lines, {have} output lines arrived, {want} emitted per model")
+            if (have == 0 and want > 0) if sbs else have < want:
+                rep.violation(obj.get("signature", "pipe-lag:chunked"), f"after chunk {q}: {have} output lines arrived, {want} emitted", c)
+                break
+        return
     res = M.observe(ctx, [(cfg, [l.encode() for l in lines])])
     impl, model = res[0]
     if c.get("pipe") and model.ok:
